@@ -25,6 +25,7 @@ fn main() {
             s.gen("e2-random", s.n(400_000, 12_000_000), || e2::case(e2::W_C07), |c, cx| e2::check(c, Prop::C07, cx));
             let max_len = if s.quick() { 6 } else { 7 };
             s.enumerate("e2-small-scope", e2::small_cases(max_len, &[1, 2]), |c, cx| e2::check(&c.to_case(), Prop::C07, cx));
+            s.gen("file-e2e-flush", s.n(3_000, 100_000), fsim::e2e::flush_case, |c, cx| fsim::e2e::check_flush(c, cx));
             s.gen("e7-os-threads", s.n(3_000, 150_000), || e7::workload(1), |c, cx| e7::check(c, Prop::C07, cx));
         },
     )
